@@ -36,7 +36,7 @@ _FLOORS = _load_floors()
 
 
 class Instance:
-    def __init__(self, cx, iid, rule, text, floor=1, exact_floor=True):
+    def __init__(self, cx, iid, rule, text, floor=1, exact_floor=False):
         self.exact_floor = exact_floor
         self.cx = cx
         self.iid = iid
@@ -96,9 +96,11 @@ class Cx:
         self._fa = {}
         self.extra = {}
 
-    def instance(self, iid, rule, text, floor=1, exact_floor=True):
-        """exact_floor=False: the recorded site count of floors.json is not applied (inventory-style rules whose
-        site count legitimately shrinks under behaviour-preserving edits); the given floor still is"""
+    def instance(self, iid, rule, text, floor=1, exact_floor=False):
+        """floor: non-vacuity bound (the rule must match at least this many sites or it has lost its anchors).
+        exact_floor=True additionally applies the site count recorded in floors.json on the reviewed tree; it is
+        reserved for instances whose every site is a distinct required mechanism (tables, presence rules), because
+        behaviour-preserving edits (merging two guarded sinks, fusing loops) legitimately lower an inventory count"""
         return Instance(self, iid, rule, text, floor, exact_floor)
 
     def _close(self, inst):
@@ -445,3 +447,122 @@ def root_local(b, op):
         else:
             break
     return l
+
+
+def subst_var(e, n, repl):
+    """replace ('var', n) inside the normalised expression e by repl"""
+    if isinstance(e, tuple):
+        if len(e) == 2 and e[0] == "var" and e[1] == n:
+            return repl
+        return tuple(subst_var(c, n, repl) for c in e)
+    if isinstance(e, list):
+        return [subst_var(c, n, repl) for c in e]
+    return e
+
+
+def _vars_in(e, out):
+    if isinstance(e, tuple):
+        if len(e) == 2 and e[0] == "var" and isinstance(e[1], int):
+            out.add(e[1])
+        else:
+            for c in e:
+                _vars_in(c, out)
+    elif isinstance(e, list):
+        for c in e:
+            _vars_in(c, out)
+
+
+def case_values(cx, body, expr, depth=2):
+    """Case split of an expression over the definitions of the multi-definition locals it mentions
+    (`let x = match … { A => a, B => b }; use(x)` reads in MIR as var = a | var = b at different places):
+    returns [(alternatives holding at the definition(s), expression with the locals replaced)].
+    A local that is re-defined from itself (loop counters) is left alone."""
+    vs = set()
+    _vars_in(expr, vs)
+    out = [([frozenset()], expr)]
+    if depth <= 0:
+        return out
+    fa = cx.fa(body)
+    for n in sorted(vs):
+        defs = body.defs.get(n, [])
+        if not defs or len(defs) > 8:
+            continue
+        cases = []
+        selfref = False
+        for loc, kind, node in defs:
+            de = body.rvalue_expr(node["rv"]) if kind == "assign" else body.call_expr(node)
+            inner = set()
+            _vars_in(de, inner)
+            if n in inner:
+                selfref = True
+            cases.append((fa.at(loc) or [frozenset()], de))
+        if selfref:
+            continue
+        nxt = []
+        for alts0, e0 in out:
+            for alts1, de in cases:
+                merged = [frozenset(a0) | frozenset(a1) for a0 in alts0 for a1 in alts1][:16]
+                nxt.append((merged, subst_var(e0, n, de)))
+        out = nxt
+    if depth > 1:
+        res = []
+        for alts, e in out:
+            vs2 = set()
+            _vars_in(e, vs2)
+            if vs2 - vs:
+                for alts2, e2 in case_values(cx, body, e, depth - 1):
+                    res.append(([frozenset(a) | frozenset(b) for a in alts for b in alts2][:16], e2))
+            else:
+                res.append((alts, e))
+        out = res
+    return out
+
+
+# Polynomial normal form for integer expressions (T7 SHAPE): +, -, * are expanded and collected exactly (the integers
+# mod 2^n form a ring, so the expansion is exact under wrapping arithmetic as well); integer division, calls and
+# everything else are opaque atoms (printed from their own normal form); widening casts are transparent.
+def poly(e):
+    """dict: sorted tuple of atom strings -> Fraction coefficient"""
+    k = e[0]
+    v = _const_val(e) if k in ("const", "bin", "cast") and not _is_float(e) else None
+    if v is not None:
+        return {(): v} if v != 0 else {}
+    if k == "cast" and not _is_float(e):
+        return poly(e[2])
+    if k == "bin" and e[1] in ("Add", "Sub", "AddWithOverflow", "SubWithOverflow") and not _is_float(e):
+        a, b = poly(e[2]), poly(e[3])
+        sg = 1 if e[1].startswith("Add") else -1
+        out = dict(a)
+        for m, c in b.items():
+            out[m] = out.get(m, 0) + sg * c
+        return {m: c for m, c in out.items() if c != 0}
+    if k == "bin" and e[1] in ("Mul", "MulWithOverflow") and not _is_float(e):
+        a, b = poly(e[2]), poly(e[3])
+        out = {}
+        for m1, c1 in a.items():
+            for m2, c2 in b.items():
+                m = tuple(sorted(m1 + m2))
+                out[m] = out.get(m, 0) + c1 * c2
+        return {m: c for m, c in out.items() if c != 0}
+    if k == "bin" and e[1] == "Div" and not _is_float(e):
+        return {("idiv(%s,%s)" % (poly_str(e[2]), poly_str(e[3])),): Fraction(1)}
+    if k == "call":
+        return {("%s(%s)" % (e[1], ",".join(poly_str(a) if not _is_float(a) else acnf(a) for a in e[2])),): Fraction(1)}
+    return {(show(e),): Fraction(1)}
+
+
+def poly_str(e):
+    p = poly(e)
+    if not p:
+        return "0"
+    terms = []
+    for m in sorted(p):
+        c = p[m]
+        body = "*".join(m)
+        if not m:
+            terms.append(_fr(c))
+        elif c == 1:
+            terms.append(body)
+        else:
+            terms.append(_fr(c) + "*" + body)
+    return " + ".join(terms)
